@@ -576,6 +576,67 @@ func main() {
 		}
 	})
 	total(st)
+	// sizes: element counts whose 4-byte count field crosses a byte lane (255/256/257, 65535/65536/65537), in
+	// each of the six places a count is written
+	counts := []int{255, 256, 257, 1000}
+	if !r.Quick() {
+		counts = append(counts, 65535, 65536, 65537)
+	}
+	st = r.Explore("sizes", fmt.Sprintf("6 count fields (points of a multi-point, vertices of a line, rings of a polygon, lines of a multi-line, polygons of a multi-polygon, members of a collection) x counts %v x {LE,BE} x {absent, 4326}: every decode path", counts), mc.Opts{MaxDev: -1, Split: 2, NewLocal: newLocal}, func(c *mc.Ctx) {
+		l := c.Local().(*loc)
+		dim := c.Choose(6)
+		n := counts[c.Choose(len(counts))]
+		order := orders[c.Choose(2)]
+		srid := []int{0, 4326}[c.Choose(2)]
+		pt := func(i int) orb.Point { return orb.Point{float64(i), float64(-i) / 4} }
+		var g orb.Geometry
+		switch dim {
+		case 0:
+			m := make(orb.MultiPoint, n)
+			for i := range m {
+				m[i] = pt(i)
+			}
+			g = m
+		case 1:
+			m := make(orb.LineString, n)
+			for i := range m {
+				m[i] = pt(i)
+			}
+			g = m
+		case 2:
+			m := make(orb.Polygon, n)
+			for i := range m {
+				m[i] = orb.Ring{pt(i), pt(i + 1), pt(i + 2), pt(i)}
+			}
+			g = m
+		case 3:
+			m := make(orb.MultiLineString, n)
+			for i := range m {
+				m[i] = orb.LineString{pt(i), pt(i + 1)}
+			}
+			g = m
+		case 4:
+			m := make(orb.MultiPolygon, n)
+			for i := range m {
+				m[i] = orb.Polygon{{pt(i), pt(i + 1), pt(i)}}
+			}
+			g = m
+		case 5:
+			m := make(orb.Collection, n)
+			for i := range m {
+				if i%2 == 0 {
+					m[i] = pt(i)
+				} else {
+					m[i] = orb.LineString{pt(i), pt(i + 1)}
+				}
+			}
+			g = m
+		}
+		l.calls += int64(checkAll(c, g, srid, order, false))
+		c.NonTrivial()
+	})
+	total(st)
+
 	// sessions: one Encoder and one Decoder used for a whole history of calls. The reference is the history
 	// replayed on fresh objects: every Encode must append exactly what a fresh Marshal with the encoder's
 	// current byte order and SRID produces, and one Decoder must read the stream back member by member.
